@@ -46,6 +46,9 @@ type Contract struct {
 	// atomic steps it performs (rely/guarantee style interference contract).
 	Atomic     bool
 	Guarantees []*Clause
+	// Defines: clauses naming the result by uninterpreted spec functions
+	// (assumed at call sites, not obliged in the body)
+	Defines []*Clause
 	// MayPanic: function may panic under its precondition without it being an obligation
 	// (used for functions whose panics are their documented refusal).
 	EnsuresPanic bool
@@ -129,7 +132,7 @@ func NewContractSet() *ContractSet {
 var clauseKw = map[string]bool{"requires": true, "ensures": true, "ensures!": true, "modifies": true, "panics_if": true,
 	"loop": true, "inline": true, "assumed": true, "mode": true, "arith": true, "func": true, "spec": true, "type": true,
 	"lemma": true, "lemma!": true, "pragma": true, "property": true, "package": true, "ghost": true, "replay": true,
-	"atomic": true, "guarantee": true,
+	"atomic": true, "guarantee": true, "defines": true,
 	"ensures_panic": true, "nonil": true, "pure": true, "witness": true, "end": true, "uses": true, "nosafety": true, "trustframe": true, "maypanic": true, "funczero": true, "purecalls": true}
 
 var nameRe = regexp.MustCompile(`^([A-Za-z_][A-Za-z0-9_.]*):\s+`)
@@ -339,6 +342,21 @@ func (cs *ContractSet) LoadFile(path, pkgPath string) {
 			if cur != nil {
 				cur.EnsuresPanic = true
 			}
+		case "defines":
+			// defines <expr over results and uninterpreted spec functions>: names the
+			// result of a deterministic function so that other contracts can refer
+			// to it; assumed at call sites, no obligation on the body (the
+			// determinism of the function is the assumption, listed in the evidence)
+			if cur == nil {
+				bad(fmt.Errorf("defines outside func"))
+				continue
+			}
+			cl, err := parseClause(ll.rest, ll.line, false)
+			if err != nil {
+				bad(err)
+				continue
+			}
+			cur.Defines = append(cur.Defines, cl)
 		case "atomic":
 			// the call is one atomic step on shared state (sync/atomic operations)
 			if cur != nil {
